@@ -23,11 +23,61 @@ def cmd_gen(args):
     return 0
 
 
+def cmd_manifest():
+    import subprocess
+    from .check import load_props
+    import importlib.util
+    spec = importlib.util.spec_from_file_location("vx_props", os.path.join(U.VERIF, "props.py"))
+    mod = importlib.util.module_from_spec(spec)
+    spec.loader.exec_module(mod)
+    props = mod.PROPS
+    fixes = []
+    try:
+        out = subprocess.run(["git", "-C", "/repo", "log", "--format=%h %s"], capture_output=True, text=True).stdout
+        fixes = [l.split()[0] for l in out.splitlines() if l.split(" ", 1)[1].startswith("fix:")]
+    except Exception:
+        pass
+    base = json.load(open("/root/.vp/BASELINE.json"))["cmd"] if os.path.exists("/root/.vp/BASELINE.json") else "cargo test --workspace --offline"
+    man = dict(
+        version=1,
+        setup_cmd="python3 -m vx selftest",
+        hooks=dict(guard="tower_resilience_verif (reserved, unused: extraction reads the tree as it is, no instrumentation in /repo)",
+                   enable="none needed", baseline_off_cmd="cd /repo && cargo test --workspace --no-fail-fast --offline",
+                   source_commits=fixes, add_only=True),
+        engines=[dict(name="vx", path="/verif/vx", serves_properties=sorted(props), kind_free_text="extract real functions -> rewrite catalogue -> contracts -> Verus (deductive, unbounded) / Kani (loop-free full-domain leaves)")],
+        checks=[],
+        notes="Exit codes: 0 all obligations discharged (KNOWN-FINDING lines allowed); 1 VIOLATION; 2 UNDECIDED (lost anchor, rule mismatch, tool trouble) — never an alarm. fix: commits in /repo are listed under hooks.source_commits (they are unguarded repairs, not hooks).",
+        not_applicable=[],
+    )
+    for pid in mod.ALL:
+        if pid in props:
+            P = props[pid]
+            man["checks"].append(dict(
+                property_id=pid,
+                quick_cmd="python3 -m vx check %s --tier quick" % pid,
+                thorough_cmd="python3 -m vx check %s --tier thorough" % pid,
+                evidence_file="evidence/%s.json" % pid,
+                replay_cmd_template="python3 -m vx replay {path}",
+                engine="vx",
+                level_claimed=dict(category="proof", text=P["level_text"], design_ref=P.get("design_ref", "")),
+                level_note=P["level_note"],
+                technique=P["technique"],
+            ))
+        else:
+            man["not_applicable"].append(dict(property_id=pid, reason=mod.NOT_APPLICABLE.get(pid, "not built yet in this session (DESIGN §9 build order); no check is claimed")))
+    with open(os.path.join(U.VERIF, "MANIFEST.json"), "w") as f:
+        json.dump(man, f, indent=1)
+    print("MANIFEST.json: %d checks, %d not applicable" % (len(man["checks"]), len(man["not_applicable"])))
+    return 0
+
+
 def main(argv):
     if not argv:
         print("usage: vx gen <unit> | check <prop> [--tier quick|thorough] | selftest")
         return 2
     if argv[0] == "gen":
         return cmd_gen(argv[1:])
+    if argv[0] == "manifest":
+        return cmd_manifest()
     from . import check
     return check.main(argv)
